@@ -183,8 +183,48 @@ pub fn drive_c13(args: &[String]) {
             let mut ie = inter_event(a, b, &fg.relators.iter().map(letters).collect(), &mut rng); ie["grp"] = json!(grp); sink.emit(ie);
         }
     }
+    // (c) large tables (more than 256 rows: row numbers that do not fit a byte): regular tables of cyclic and dihedral groups.
+    // A wrong core computation can need gigabytes and minutes, so each case runs in a sacrificial child process with a
+    // memory and a time limit; a child that does not survive is recorded as a failed call (like a panic)
+    for (ng, rels) in [(1usize, vec![vec![1isize; 257]]), (1, vec![vec![1; 300]]), (2, vec![vec![1, 1], vec![2, 2], [1isize, 2].repeat(140)])] {
+        let spec = json!({"ng": ng, "rels": rels, "seed": rng.gen::<u32>()});
+        pending(&json!({"ev": "core", "large": spec}));
+        let exe = std::env::current_exe().unwrap();
+        let mut child = std::process::Command::new("sh")
+            .args(["-c", &format!("ulimit -v 6000000; exec timeout 120 {} C13 core-one", exe.display())])
+            .stdin(std::process::Stdio::piped()).stdout(std::process::Stdio::piped()).stderr(std::process::Stdio::null())
+            .spawn().expect("spawn child");
+        { use std::io::Write; child.stdin.take().unwrap().write_all(spec.to_string().as_bytes()).unwrap(); }
+        let out = child.wait_with_output().unwrap();
+        let ev = if out.status.success() { serde_json::from_slice::<Value>(&out.stdout).ok() } else { None };
+        match ev {
+            Some(v) => sink.emit(v),
+            None => {
+                let t = catch(|| coset_table(ng, &words(&rels), &vec![])).ok();
+                sink.emit(json!({"ev": "core", "grp": format!("large{}", rels[rels.len() - 1].len()), "in": t.map(|t| table_json(&t)).unwrap_or(json!(null)), "words": [],
+                                 "panic": format!("core_table on a table with more than 256 rows did not survive 6 GB / 120 s ({:?})", out.status)}));
+            }
+        }
+    }
     sink.flush();
     println!("{}", json!({"events": sink.n}));
+}
+
+/// child mode of (c): one large case read from stdin, the core event printed to stdout
+pub fn core_one(_args: &[String]) {
+    use std::io::Read;
+    let mut s = String::new();
+    std::io::stdin().read_to_string(&mut s).unwrap();
+    let j: Value = serde_json::from_str(&s).unwrap();
+    let ng = j["ng"].as_u64().unwrap() as usize;
+    let rels: Vec<Vec<isize>> = serde_json::from_value(j["rels"].clone()).unwrap();
+    let mut rng = StdRng::seed_from_u64(j["seed"].as_u64().unwrap());
+    let t = coset_table(ng, &words(&rels), &vec![]);
+    let mut ce = core_event(&t, &rels, &mut rng);
+    ce["grp"] = json!(format!("large{}", t.len()));
+    // a wrong result can be enormous: keep the row count, drop the table (an empty table is never accepted)
+    if ce["out"]["img"].as_array().map(|a| a.len()).unwrap_or(0) > 4000 { ce["out_rows"] = json!(ce["out"]["img"].as_array().unwrap().len()); ce["out"]["img"] = json!([]); }
+    println!("{}", ce);
 }
 
 // ------------------------------------------------------------------ hooked runs (cfg rust_dsymbols_verif)
